@@ -3,8 +3,10 @@
   CT-PRIM  in the *_sec copy/swap/compare primitives no branch condition, array index, division or callee outside the
            set depends on the data or on the selection bit
   CT-ALG   in the ladder / regular-recoding scalar multiplications and exponentiations no branch condition, no index
-           into a table of group elements and no delegation to a non-regular multiplication depends on the content of
-           the secret scalar (public: its bit length, sign, zero-ness, and the shape fields of derived integers)
+           into a table of group elements, no pointer computed from an integer and no delegation to a non-regular
+           multiplication depends on the content of the secret scalar (public: its bit length, sign, zero-ness, the
+           digit count of derived integers, and the sign of copies / reductions of the scalar; the sign of sub-scalars
+           of a decomposition is value-dependent)
 """
 import re
 
@@ -17,8 +19,8 @@ EXPLANATION = (
     "analysing callees to depth 2) of the constant-time primitives and of every ladder / regular-recoding scalar "
     "multiplication and exponentiation of the library. Decides that no control decision, no index into a table of group "
     "elements and no delegation to a non-regular routine depends on the selection bit, the compared data or the content of "
-    "the secret scalar. Public by the property's own statement: bit length, sign and zero-ness of the input scalar, and the "
-    "shape fields (used, sign) of integers. Does not decide machine-level timing (compiler lowering, variable-latency "
+    "the secret scalar. Public by the property's own statement: bit length, sign and zero-ness of the input scalar, the "
+    "digit count of integers and the sign of copies/reductions of the scalar (signs of decomposition sub-scalars are secret). Does not decide machine-level timing (compiler lowering, variable-latency "
     "instructions) nor value-dependent behaviour inside field/integer arithmetic callees. Nothing of RELIC is executed.")
 
 # primitives: name -> (secret scalar parameters, public parameters)
@@ -99,6 +101,17 @@ class CTChecker(Taint):
                             v = fn.vars[b]
                             if self.prim or TABLE_TYPES.match(v.get("ot", v["t"])) or TABLE_TYPES.match(v["t"]):
                                 self.viol("index", n, "subscript `%s` of `%s` depends on secret data" % (fn.fmt(sub[2])[:40], v["n"]))
+                    elif sub[0] == "k" and isinstance(sub[1], dict) and "pc" in sub[1]:
+                        # an integer computed from secret data turned into a pointer: the address accessed follows the secret
+                        op = ir.peel(fn, sub[2])
+                        isint = False
+                        if isinstance(op, list) and op and op[0] == "v":
+                            vt = fn.vars[op[1]]
+                            isint = "pc" not in vt and "dims" not in vt and not vt.get("vla")
+                        elif isinstance(op, list) and op and op[0] in ("b", "?"):
+                            isint = True
+                        if isint and self.tainted(op, st):
+                            self.viol("address", n, "pointer `%s` is computed from secret data: the address accessed depends on it" % fn.fmt(sub)[:50])
                     elif sub[0] == "b" and sub[1] in ("/", "%") and self.prim and (self.tainted(sub[2], st) or self.tainted(sub[3], st)):
                         self.viol("div", n, "division on secret data: `%s`" % fn.fmt(sub)[:60])
                     elif sub[0] == "c" and sub[1]:
@@ -173,11 +186,12 @@ def selfcheck(ctx, prog, chk):
 
 def run(ctx, chk):
     chk.assumptions = ["explicit flows only (no implicit flows through control dependence other than the reported branches)",
-                       "shape fields (used, sign) of integers and bn_bits/bn_sign/bn_is_zero of the input scalar are public, as the property states",
+                       "the digit count of integers, bn_bits/bn_sign/bn_is_zero of the input scalar and the sign of its copies / reductions are public, as the property states; the sign of other derived integers (sub-scalars of a decomposition) is secret",
                        "field and integer arithmetic callees are treated as atomic group-level or sub-group-level operations"]
     c = analyse(ctx, ctx.program("BASE"), chk)
     chk.floor("CT-PRIM", "constant-time primitives", c["prims"], 15)
     chk.floor("CT-ALG", "regular / ladder algorithm bodies", c["algs"], 25)
+    # the Edwards forms only exist at 255 bits
+    analyse(ctx, ctx.program("P255"), chk)
     if chk.tier == "thorough":
-        for cfg in ("P255", "P381"):
-            analyse(ctx, ctx.program(cfg), chk)
+        analyse(ctx, ctx.program("P381"), chk)
